@@ -196,3 +196,31 @@ func genLSOp(r *Rng, cfg *Config, w []int) Op {
 }
 
 func appOp(s Step) Op { return Op{Kind: "app", Step: &s} }
+
+// genLockWindow emits a litestream checkpoint during which - while litestream
+// has released its read lock around the PRAGMA - the application commits and
+// checkpoints: the only window in which another connection can restart or
+// truncate the WAL behind litestream's back.
+func genLockWindow(r *Rng, cfg *Config) []Op {
+	var ops []Op
+	if r.Chance(0.6) {
+		ops = append(ops, appOp(genTxn(r, cfg)))
+	}
+	op := Op{Kind: "ls_ckpt", Mode: ckptModes[r.Pick([]int{3, 4, 4, 3})]}
+	site := PickOf(r, []string{"ckpt:read_lock_released", "ckpt:pragma_done", "sql:pragma:wal_checkpoint", "sql:begin", "sql:select:seq", "phase:checkpoint_exec", "sql:insert:seq"})
+	tx := genTxn(r, cfg)
+	tx.Rollback = false
+	steps := []Step{tx, {K: "ckpt", Mode: ckptModes[r.Pick([]int{2, 2, 3, 5})]}}
+	if r.Chance(0.3) {
+		steps = append(steps, genTxn(r, cfg))
+	}
+	if r.Chance(0.2) {
+		steps = steps[1:] // checkpoint only
+	}
+	op.Interpose = []Interpose{{Site: site, Nth: r.Pick([]int{6, 3, 1}) + 1, Steps: steps}}
+	ops = append(ops, op)
+	if r.Chance(0.5) {
+		ops = append(ops, Op{Kind: "ls_sync_wait"})
+	}
+	return ops
+}
